@@ -50,6 +50,8 @@ TNext ==
     \/ (Is("MigRet") /\ MigRet(Ev.by, Ev.u, Ev.ret))
     \/ (Is("MigCb") /\ MigCb(Ev.u))
     \/ (Is("MigCount") /\ MigCount(Ev.u, Ev.n))
+    \* a request for a unit that can never migrate (the primary ULT) is rejected as an invalid work unit
+    \/ (Is("MigRej") /\ Ev.ret = 1 /\ NoOp)
     \/ (Is("Primary") /\ Primary(Ev.u, IF "pool" \in DOMAIN Ev THEN Ev.pool ELSE 0))
     \/ (Is("PrimaryDone") /\ PrimaryDone(Ev.u))
     \/ (Is("Pop") /\ Pop(Ev.by, Ev.t))
